@@ -15,6 +15,7 @@ def plan(tier):
           (PG.idle_then_die(1), b, dict(kinds=("P", "T"))),
           (PG.idle_then_die(1), b, dict(kinds=("P", "T"), starve="eager:parent:manager")),
           (PG.idle_then_die(2), b, dict(kinds=("P", "T"), starve="eager:parent:manager")),
+          (PG.busy_manager_idle_worker(2), b, dict(kinds=("K",))),
           (PG.kill_mix(3, None), b, dict(kinds=("K",))),
           (PG.reusable_resize(2, 3, None), b, dict(kinds=("K",)))]
     for code in (-11, -15, 3):
